@@ -93,7 +93,9 @@ def run_one(spec, out):
     refs = fix.build_all(b, nm)
     den = Den(b, nm)
     adj = adjacent(order, [('x', 'xp')])
-    base = dict(kind='one', names=list(nm), order=order)
+    base = dict(kind='one', names=list(nm), order=order,
+                stride=spec['stride'], offset=spec['offset'],
+                seed=spec.get('seed', 1))
     subsets = [[j for j in range(n) if (m >> j) & 1] for m in range(1 << n)]
     pairs = [(a, c) for a in range(F + 1) for c in range(F + 1)]
     cnt = nt = rej = 0
@@ -103,34 +105,37 @@ def run_one(spec, out):
         dep_pair = tt.depends(tr, n, 0) and tt.depends(tr, n, 1)
         for q in subsets:
             qn = {nm[j] for j in q}
-            for fa in (False, True):
+            # both functions with both directions of the renaming, on
+            # one manager (a memo of one must not serve the other)
+            for fa, (ka, kb) in itertools.product(
+                    (False, True), (('x', 'xp'), ('xp', 'x'))):
+                ia, ib = nm.index(ka), nm.index(kb)
                 if adj:
-                    want = expected_pre(tr, st, n, {0: 1}, q, fa)
+                    want = expected_pre(tr, st, n, {ia: ib}, q, fa)
+                    case = dict(base, op='preimage', trans=tr, set=st, q=q,
+                                forall=fa, ren=[ka, kb])
                     try:
-                        r = _bdd.preimage(refs[tr], refs[st], {'x': 'xp'},
+                        r = _bdd.preimage(refs[tr], refs[st], {ka: kb},
                                           iter(sorted(qn)) if (tr + st) % 3
                                           == 0 else qn, b, forall=fa)
                         if den(r) != want or r != refs[want]:
-                            out.fail('preimage.wrong_result',
-                                     dict(base, op='preimage', trans=tr,
-                                          set=st, q=q, forall=fa),
+                            out.fail('preimage.wrong_result', case,
                                      dict(got=den(r), want=want))
                     except Exception as e:
-                        out.guard(dict(base, op='preimage', trans=tr,
-                                       set=st, q=q, forall=fa), _reraise, e)
+                        out.guard(case, _reraise, e)
                     cnt += 1
                     if dep_pair and q:
                         nt += 1
-                ok = image_precondition(tr, st, n, {1: 0}, q)
+                ok = image_precondition(tr, st, n, {ia: ib}, q)
                 case = dict(base, op='image', trans=tr, set=st, q=q,
-                            forall=fa)
+                            forall=fa, ren=[ka, kb])
                 try:
-                    r = _bdd.image(refs[tr], refs[st], {'xp': 'x'}, qn, b,
+                    r = _bdd.image(refs[tr], refs[st], {ka: kb}, qn, b,
                                    forall=fa)
                     if not ok:
                         out.fail('image.precondition_not_checked', case)
                     else:
-                        want = expected_img(tr, st, n, {1: 0}, q, fa)
+                        want = expected_img(tr, st, n, {ia: ib}, q, fa)
                         if den(r) != want or r != refs[want]:
                             out.fail('image.wrong_result', case,
                                      dict(got=den(r), want=want))
@@ -221,6 +226,35 @@ def check_random_case(case):
         want = expected_img(tr, st, n, ren_idx, q, fa)
     got = den(r)
     require(got == want, f'{op}.wrong_result', dict(got=got, want=want))
+    # the other function with the very same arguments on the same
+    # manager, then the first one again: a result remembered for one
+    # must not be served to the other
+    if case['as_levels']:
+        q2 = {lv[x] for x in case['qvars']}
+    else:
+        q2 = set(case['qvars'])
+    other = 'image' if op == 'preimage' else 'preimage'
+    hold = _ar.Function(r, A)
+    for which in (other, op):
+        fn = getattr(_bdd, which)
+        if which == 'image':
+            ok2 = image_precondition(tr, st, n, ren_idx, q)
+            want2 = expected_img(tr, st, n, ren_idx, q, fa)
+        else:
+            ok2 = adjacent(order, [(k_, v_) for k_, v_ in
+                                   ren_names.items()])
+            want2 = expected_pre(tr, st, n, ren_idx, q, fa)
+        try:
+            r2 = fn(ft.node, fs.node, dict(ren_arg), set(q2), b, fa)
+        except AssertionError:
+            require(not ok2 or which == 'preimage',
+                    'image.rejected_valid_input')
+            continue
+        if not ok2:
+            continue
+        require(Den(b, nm)(r2) == want2, f'{which}.wrong_after_other',
+                dict(got=Den(b, nm)(r2), want=want2))
+    del hold
     from .. import inv
     inv.check_structure(b)
     require(r == Builder(b, nm)(want), 'result.not_canonical')
@@ -309,6 +343,11 @@ def replay_into(case, out):
         out.guard(case, lambda: check_random_case(case))
         out.count(1, 0)
         return
+    if 'stride' in case:
+        # the failure may depend on earlier calls on the same manager:
+        # run the shard again
+        return run_one({k: case[k] for k in (
+            'kind', 'names', 'order', 'stride', 'offset', 'seed')}, out)
     import dd.bdd as _bdd
     nm = tuple(case['names'])
     n = len(nm)
